@@ -1127,7 +1127,7 @@ def run(tier, replay=None):
             if mutate:
                 l, j = r.choice(cands)
                 bad_locus = l.name
-                how = r.choice(["other", "lower"])
+                how = ["lower", "other"][i % 2]          # both kinds in every run (a lower-case REF is not the reference base either)
                 old = l.snv_alleles[j][0]
                 new = old.lower() if how == "lower" else r.choice([b for b in S.BASES if b != old and b not in l.snv_alleles[j]] or [b for b in S.BASES if b != old])
                 loci2 = [S.Locus(x.name, x.contig, x.start, x.stop, list(x.snv_positions), [list(a) for a in x.snv_alleles])
